@@ -566,7 +566,18 @@ class _Expr(SymEval):
                     return len(txt)
                 raise NotSymbolic(f"method {f.attr} on an output file")
             if isinstance(base, Rec):
-                return self.owner.call_method(base, f.attr, [self.eval(a) for a in n.args], {k.arg: self.eval(k.value) for k in n.keywords})
+                margs = [self.eval(a) for a in n.args]
+                mkw = {}
+                for k in n.keywords:
+                    if k.arg is None:
+                        mkw.update(self.eval(k.value))
+                    else:
+                        mkw[k.arg] = self.eval(k.value)
+                held = base.fields.get(f.attr)
+                if isinstance(held, tuple) and len(held) == 2 and held[0] == "<function>":
+                    # an attribute that holds a function (a module object of a model registry, a callback slot)
+                    return held[1](margs, mkw) if callable(held[1]) else self.owner.run_free(held[1], margs, mkw)
+                return self.owner.call_method(base, f.attr, margs, mkw)
             if isinstance(base, str) and f.attr in ("lower", "upper", "strip", "title", "capitalize", "startswith", "endswith", "replace", "split", "join", "rstrip", "lstrip", "index", "find", "count", "isdigit", "isalpha", "ljust", "rjust", "center", "zfill", "splitlines"):
                 return _prog_call(getattr(base, f.attr), *[self.eval(a) for a in n.args])
             if isinstance(base, str) and f.attr == "format":
@@ -650,7 +661,12 @@ class _Expr(SymEval):
                 ci = r[1]
                 names = list(ci.fields)
                 args = [self.eval(a) for a in n.args]
-                kw = {k.arg: self.eval(k.value) for k in n.keywords}
+                kw = {}
+                for k in n.keywords:
+                    if k.arg is None:
+                        kw.update(self.eval(k.value))
+                    else:
+                        kw[k.arg] = self.eval(k.value)
                 cstub = getattr(self.owner, "stubs", {}).get(ci.qualname)
                 if cstub is not None:
                     return cstub(args, kw)
@@ -984,8 +1000,39 @@ class AccessorEval:
             if isinstance(st.value, ast.Constant):
                 return
             if isinstance(st.value, (ast.Yield, ast.YieldFrom)):
-                raise Yielded(st.value, local)
+                sink_ = self.__dict__.get("collect_yields")
+                if sink_ is None:
+                    raise Yielded(st.value, local)
+                # collecting mode: the generator is run to its end and what it yields is recorded in order
+                if isinstance(st.value, ast.Yield):
+                    sink_.append(self._eval(st.value.value, local) if st.value.value is not None else None)
+                else:
+                    v_ = self._eval(st.value.value, local)
+                    sink_.extend(list(v_))
+                return
             self._eval(st.value, local)
+            return
+        if isinstance(st, ast.With):
+            exits = []
+            for item in st.items:
+                cm = self._eval(item.context_expr, local)
+                entered = cm
+                if isinstance(cm, Rec) and cm.cls is not None and "__enter__" in cm.cls.methods:
+                    entered = self.call_method(cm, "__enter__", [], {})
+                    exits.append(cm)
+                elif isinstance(cm, Rec) and isinstance(cm.fields.get("__enter__"), tuple):
+                    entered = cm.fields["__enter__"][1]([], {})
+                    exits.append(cm)
+                if item.optional_vars is not None:
+                    self._assign(item.optional_vars, entered, local)
+            try:
+                self._block(st.body, local)
+            finally:
+                for cm in reversed(exits):
+                    if cm.cls is not None and "__exit__" in cm.cls.methods:
+                        self.call_method(cm, "__exit__", [None, None, None], {})
+                    elif isinstance(cm.fields.get("__exit__"), tuple):
+                        cm.fields["__exit__"][1]([None, None, None], {})
             return
         if isinstance(st, ast.While):
             n_iter = 0
